@@ -72,7 +72,7 @@ def build_spec(sc, shard_no, slot, index, rng, port_base=12000):
     faults, sleeps, kill = {}, {}, None
     if sc["kind"] == "task":
         t = ROLE_TASK[sc["role"]]
-        last = sorted(js["tasks"][t]["outputs"])[-1]
+        last = js["tasks"][t]["outputs"][-1]   # declared order == key-sorted order in every generated job
         faults[t] = {"when": sc["when"], "how": sc["how"], "ds": f"{t}.{last}"}
     elif sc["kind"] == "kill":
         kill = {"what": sc["what"], "signal": sc["signal"], "at": sc["at"], "host": sc["host"]}
@@ -88,7 +88,7 @@ def build_spec(sc, shard_no, slot, index, rng, port_base=12000):
             t = rng.choice(multi) if sc["when"] == "mid" and multi else rng.choice(js["order"])
             if sc["when"] == "mid" and len(js["tasks"][t]["outputs"]) == 1:
                 sc = dict(sc, when="start")
-            last = sorted(js["tasks"][t]["outputs"])[-1]
+            last = js["tasks"][t]["outputs"][-1]   # declared order == key-sorted order in every generated job
             faults = {t: {"when": sc["when"], "how": sc["how"], "ds": f"{t}.{last}"}}
     nh, nw = sc["shape"]
     from vlib.common import ports
